@@ -256,6 +256,20 @@ pub fn worker_main() {
             Err(_) => continue,
         };
         let id = req["id"].clone();
+        if req.get("sem").is_some() {
+            let req2 = req.clone();
+            let h = std::thread::Builder::new().stack_size(16 * 1024 * 1024).spawn(move || {
+                std::panic::catch_unwind(|| crate::sem::handle_sem(&req2)).unwrap_or_else(|_| serde_json::json!({"panic": take_panic().unwrap_or_default()}))
+            });
+            let ans = match h {
+                Ok(h) => h.join().unwrap_or_else(|_| serde_json::json!({"panic": "thread"})),
+                Err(e) => serde_json::json!({"error": e.to_string()}),
+            };
+            let mut so = std::io::stdout().lock();
+            let _ = writeln!(so, "{}", serde_json::json!({"id": id, "sem": ans}));
+            let _ = so.flush();
+            continue;
+        }
         let project: Project = match serde_json::from_value(req["project"].clone()) {
             Ok(p) => p,
             Err(e) => {
@@ -327,6 +341,26 @@ impl SubCompiler {
                 }
                 serde_json::from_value(v["outs"].clone()).map_err(|e| CompileFail::Infra(e.to_string()))
             }
+            Err(crate::proc::WorkerError::Timeout) => {
+                self.worker = None;
+                Err(CompileFail::Timeout)
+            }
+            Err(crate::proc::WorkerError::Died(s)) => {
+                self.worker = None;
+                Err(CompileFail::Crashed(s))
+            }
+            Err(crate::proc::WorkerError::Infra(s)) => {
+                self.worker = None;
+                Err(CompileFail::Infra(s))
+            }
+        }
+    }
+    /// semantic-engine request (see sem::handle_sem)
+    pub fn sem(&mut self, req: serde_json::Value, timeout_s: u64) -> Result<serde_json::Value, CompileFail> {
+        self.ensure()?;
+        let r = self.worker.as_mut().unwrap().request(req, std::time::Duration::from_secs(timeout_s));
+        match r {
+            Ok(v) => Ok(v["sem"].clone()),
             Err(crate::proc::WorkerError::Timeout) => {
                 self.worker = None;
                 Err(CompileFail::Timeout)
